@@ -241,6 +241,53 @@ func ShortRead(p *load.Program, run *report.Run, pkgs []string, files map[string
 						ok = true
 					}
 				}
+				if !ok {
+					// the check sits in a helper of the package that is handed the reader before the read
+					// (length, err := readChunkLen(r)): its body compares the length with r.Len() and fails
+					rname := c.text(sel.X)
+					ast.Inspect(c.fd.Body, func(m ast.Node) bool {
+						hc, isCall := m.(*ast.CallExpr)
+						if !isCall || hc.Pos() >= call.Pos() {
+							return true
+						}
+						hid, isId := hc.Fun.(*ast.Ident)
+						if !isId {
+							return true
+						}
+						passes := false
+						for _, a := range hc.Args {
+							if c.text(a) == rname {
+								passes = true
+							}
+						}
+						hfn, _ := c.pkg.TypesInfo.Uses[hid].(*types.Func)
+						if !passes || hfn == nil || hfn.Pkg() != c.pkg.Types {
+							return true
+						}
+						for _, f := range c.pkg.Syntax {
+							for _, d := range f.Decls {
+								hd, isFD := d.(*ast.FuncDecl)
+								if !isFD || hd.Body == nil || c.pkg.TypesInfo.Defs[hd.Name] != types.Object(hfn) {
+									continue
+								}
+								ast.Inspect(hd.Body, func(q ast.Node) bool {
+									if ifs, isIf := q.(*ast.IfStmt); isIf {
+										t := c.text(ifs.Cond)
+										if strings.Contains(t, ".Len()") && strings.Contains(t, " > ") || strings.Contains(t, ".Len()") && strings.Contains(t, " < ") {
+											if len(ifs.Body.List) > 0 {
+												if _, isRet := ifs.Body.List[len(ifs.Body.List)-1].(*ast.ReturnStmt); isRet {
+													ok = true
+												}
+											}
+										}
+									}
+									return true
+								})
+							}
+						}
+						return true
+					})
+				}
 				if ok {
 					run.OK(rule, key, pos, "bytes.Reader read covered by a preceding length check")
 				} else {
